@@ -1057,7 +1057,7 @@ _SL_WRAP = dict(file=TRI, fn_anchor=r"fn insert_transactional\(", name="verif_sl
                 stmts=[r"let vertex = if self\.global_topology.*?\n        \};"], result="Ok(vertex)")
 K("tri.later_insert_wrapped", ["C16"], TRI, "tri_wrap.rs", "later_insert_wrapped_contract", "K-slice",
   [dict(file=TRI, name="Triangulation::insert_transactional (K-slice: the `let vertex = if <periodic topology> { .. } else { vertex };` statement)", anchor=r"fn insert_transactional\(")],
-  slices=[_SL_WRAP], timeout=1200, no_playback=True,
+  slices=[_SL_WRAP], timeout=2700, no_playback=True,
   assumed=["K-slice: the single statement `let vertex = if self.global_topology.. { .. } else { vertex };` at the top of insert_transactional, the rest dropped (that the insertion continues with THIS `vertex` binding is by reading); "
            "f64::rem_euclid replaced by its assumed contract (as in toroidal.* / canon_model.*); format! stubbed; D = 2, f64"],
   obligations=["later-insert-wrapped", "in-range-unchanged", "euclidean-untouched", "identity-kept"],
@@ -1139,7 +1139,7 @@ K("dt.reseeded_index", ["C09"], DT, "dt_index.rs", "reseeded_index_contract", "K
 # command: they do not finish within 45 min here (or were never seen to finish).
 # They are listed in DESIGN.md 8.4 with what was observed.
 # ======================================================================================
-_MANUAL = {"construct.retry_gate", "dedup.quantized_fallback.n2", "dedup.quantized_fallback", "hull.stale.validate", "tri.later_insert_wrapped", "tri.index_edges_canonical", "flip.inserted_simplex_guard.kept", "flip.inserted_simplex_guard.removed", "tri.txn_attempt.ok", "tri.txn_attempt.dup", "tri.txn_attempt.degenerate", "tri.txn_attempt.structural", "tri.validation_report", "dt.level4_report", "order.seed", "facet_key.order_free", "dedup.n4",
+_MANUAL = {"construct.retry_gate", "dedup.quantized_fallback.n2", "dedup.quantized_fallback", "hull.stale.validate", "tri.index_edges_canonical", "flip.inserted_simplex_guard.kept", "flip.inserted_simplex_guard.removed", "tri.txn_attempt.ok", "tri.txn_attempt.dup", "tri.txn_attempt.degenerate", "tri.txn_attempt.structural", "tri.validation_report", "dt.level4_report", "order.seed", "facet_key.order_free", "dedup.n4",
            "tds.remove_cells_bump.k0", "tds.remove_cells_bump.k1", "tds.remove_cells_bump.k2",
            "tri.adjacent_cells.n2_nohint", "tri.adjacent_cells.n2_hint", "tri.adjacent_cells.n0_absent",
            "hull.stale.is_point_outside", "hull.stale.find_visible", "hull.stale.find_nearest", "hull.stale.facet_visible",
